@@ -4,6 +4,7 @@ H1 IdentityCMap / IdentityCMapByte.decode on symbolic bytes.
 H2 CMap.decode trie walk: codespace built through the real FileCMap.add_code2cid, strings chosen symbolically; oracle: segmentation by first byte.
 H3 ToUnicode: real CMapParser.do_keyword(endbfchar / endbfrange) with the operand stack pre-loaded with symbolic byte strings; oracle ISO 32000-1 9.10.3.
 H4 get_widths / get_widths2 (both W syntaxes) with symbolic ints and reals.
+H5 CMapDB cache histories.  H6 PDFCIDFont.__init__ + char_width / char_disp against the W/DW (W2/DW2) arrays.
 """
 import z3
 
@@ -321,6 +322,76 @@ def h4_widths(which=1, timeout=200, part=None, **kw):
                          timeout, concretize=conc, shims={"namespace_shims": shims}, part=part, int_lo=-1, int_hi=12)
 
 
+def _font_and_expect(vertical, c1, c2, span, w, has_d):
+    """builds the CIDFont spec (W/DW or W2/DW2) and the widths / displacements the arrays assign to CIDs 0..7 (later entries override earlier ones)"""
+    from pdfminer.psparser import LIT
+    spec = {"Encoding": LIT("Identity-V" if vertical else "Identity-H"), "FontDescriptor": {}}
+    ew, ed = {}, {}
+    if not vertical:
+        spec["W"] = [c1, [w[0], w[1]], c2, c2 + span, w[2]]
+        dw = 1000
+        if has_d:
+            spec["DW"] = dw = w[3]
+        ew[int(c1)] = w[0]
+        ew[int(c1) + 1] = w[1]
+        for i in range(span + 1):
+            ew[int(c2) + i] = w[2]
+        dd = 0
+    else:
+        spec["W2"] = [c1, [w[0], w[1], w[2]], c2, c2 + span, w[3], w[4], w[5]]
+        dvy, dw = 880, -1000
+        if has_d:
+            spec["DW2"] = [w[6], w[7]]
+            dvy, dw = w[6], w[7]
+        ew[int(c1)] = w[0]
+        ed[int(c1)] = (w[1], w[2])
+        for i in range(span + 1):
+            ew[int(c2) + i] = w[3]
+            ed[int(c2) + i] = (w[4], w[5])
+        dd = (None, dvy)
+    return spec, ew, ed, dw, dd
+
+
+def h6_advance(vertical=0, timeout=200, part=None, **kw):
+    """the real PDFCIDFont.__init__ on a spec with symbolic W/DW (W2/DW2): char_width / char_disp of every CID 0..7 are what the arrays assign (a width of 0 is a width)"""
+    import pdfminer.pdffont as pf
+    shims = numshim.install("pdffont", "pdftypes", "casting", "utils")
+
+    def fn(ex):
+        w = [ex.real("w%d" % i, -2000, 2000) for i in range(8)]
+        c1, c2 = ex.int("c1", 0, 4), ex.int("c2", 0, 4)
+        span = ex.choice(2, "span")
+        has_d = ex.choice(2, "has_default")
+        spec, ew, ed, dw, dd = _font_and_expect(vertical, c1, c2, span, w, has_d)
+        font = pf.PDFCIDFont(None, spec, strict=False)
+        info = {"vertical": vertical, "spec": {k: v for k, v in spec.items() if k in ("W", "DW", "W2", "DW2")}}
+        conds = []
+        for cid in range(8):
+            gw = font.char_width(cid)
+            conds.append(symx.zr(gw) == symx.zr(ew.get(cid, dw) * 0.001))
+            gd = font.char_disp(cid)
+            xd = ed.get(cid, dd)
+            if isinstance(xd, tuple):
+                ok = isinstance(gd, tuple) and len(gd) == 2 and (gd[0] is None) == (xd[0] is None)
+                if not ok:
+                    conds.append(z3.BoolVal(False))
+                else:
+                    if xd[0] is not None:
+                        conds.append(symx.zr(gd[0]) == symx.zr(xd[0]))
+                    conds.append(symx.zr(gd[1]) == symx.zr(xd[1]))
+            else:
+                conds.append(z3.BoolVal(not isinstance(gd, tuple) and gd == xd))
+        ex.require(SB(z3.And(conds)), "char_width / char_disp differ from the W/DW (W2/DW2) arrays", **info)
+
+    def conc(m, info):
+        g = lambda x: [g(y) for y in x] if isinstance(x, list) else symx.mval(m, x)
+        return {"vertical": info["vertical"], "spec": {k: g(v) for k, v in info["spec"].items()}}
+    return core.run_symx("H6_advance", fn, [pf.PDFCIDFont.__init__, pf.PDFFont.char_width, pf.PDFCIDFont.char_disp, pf.get_widths, pf.get_widths2],
+                         {"font": "Identity-V" if vertical else "Identity-H", "arrays": "c [w w] c_first c_last w (W) / c [w vx vy] c_first c_last w vx vy (W2), DW / DW2 present or absent",
+                          "codes": "symbolic 0..4", "widths": "symbolic reals in [-2000, 2000], 0 included", "cids asked": "0..7"},
+                         timeout, concretize=conc, shims={"namespace_shims": shims}, part=part, int_lo=-1, int_hi=12)
+
+
 def replay(harness, inp):
     import pdfminer.cmapdb as cm
     if harness == "H1_identity":
@@ -407,6 +478,40 @@ def replay(harness, inp):
             cm.CMapDB._umap_cache.update(c2)
     if harness == "H3_unichr":
         return core.replay_by_choices(h3_unichr, {}, inp["_choices"])
+    if harness == "H6_advance":
+        import pdfminer.pdffont as pf
+        from pdfminer.psparser import LIT
+        from lib.core import fl
+        g = lambda x: [g(y) for y in x] if isinstance(x, list) else fl(x)
+        sp = {k: g(v) for k, v in inp["spec"].items()}
+        spec = dict(sp, Encoding=LIT("Identity-V" if inp["vertical"] else "Identity-H"), FontDescriptor={})
+        font = pf.PDFCIDFont(None, spec, strict=False)
+        near = lambda a, b: abs(a - b) <= 1e-9 * max(1.0, abs(a), abs(b))
+        ew, ed = {}, {}
+        if not inp["vertical"]:
+            W = sp["W"]
+            dw, dd = sp.get("DW", 1000), 0
+            ew[W[0]], ew[W[0] + 1] = W[1][0], W[1][1]
+            for c in range(W[2], W[3] + 1):
+                ew[c] = W[4]
+        else:
+            W = sp["W2"]
+            dvy, dw = sp.get("DW2", [880, -1000])
+            dd = (None, dvy)
+            ew[W[0]], ed[W[0]] = W[1][0], (W[1][1], W[1][2])
+            for c in range(W[2], W[3] + 1):
+                ew[c], ed[c] = W[4], (W[5], W[6])
+        for cid in range(8):
+            gw, xw = font.char_width(cid), ew.get(cid, dw) * 0.001
+            if not near(gw, xw):
+                return "font %r: char_width(%d) = %r, the arrays assign %r" % (sp, cid, gw, xw)
+            gd, xd = font.char_disp(cid), ed.get(cid, dd)
+            if isinstance(xd, tuple):
+                if not (isinstance(gd, tuple) and (gd[0] is None) == (xd[0] is None) and (gd[0] is None or near(gd[0], xd[0])) and near(gd[1], xd[1])):
+                    return "font %r: char_disp(%d) = %r, the arrays assign %r" % (sp, cid, gd, xd)
+            elif gd != xd:
+                return "font %r: char_disp(%d) = %r, expected %r" % (sp, cid, gd, xd)
+        return None
     if harness == "H4_widths":
         import pdfminer.pdffont as pf
         from lib.core import fl
@@ -446,4 +551,6 @@ def jobs(tier):
         J.append(Job("H3_tounicode:%s" % kind, "h3_tounicode", {"kind": kind}, 300, "H3_tounicode"))
     for which in (1, 2):
         J.append(Job("H4_widths:%d" % which, "h4_widths", {"which": which}, 300, "H4_widths"))
+    for v in (0, 1):
+        J.append(Job("H6_advance:%s" % "HV"[v], "h6_advance", {"vertical": v}, 300, "H6_advance"))
     return J
